@@ -31,3 +31,19 @@ Print Assumptions C15_limits_hard_le_clock.
 
 (** tie: Limits equals the values dumped from the running code on a grid of clocks / moves-to-go *)
 Definition C15_impl := (impl_limits, impl_tt_val).
+
+(** * Halting protocol (driver transition system, every interleaving) *)
+From Morlock.Model Require Import Driver.
+From Morlock.Lemmas Require Import DriverLemmas4 DriverLemmas.
+(** Halt never returns before depth 1 is complete *)
+Definition C15_halt_after_depth1 := @halt_after_depth1.
+Check @halt_after_depth1.
+Print Assumptions halt_after_depth1.
+(** it returns a fully completed iteration (the stored pv of the search) ... *)
+Definition C15_halt_returns_completed := @halt_returns_completed.
+Check @halt_returns_completed.
+(** ... at least as deep as every iteration reported before the halt was requested *)
+Definition C15_halt_at_least_reported := @halt_at_least_reported.
+Check @halt_at_least_reported.
+Check @halt_protocol.
+Check @timer_halt_after_depth1.
